@@ -5,6 +5,8 @@
  * Postconditions are stated on the EXACT SUB-DOMAIN the property names ("exact equality over all small-integer
  * matrices and vectors"): every entry is an integer with |x| <= AFF_MAX, so every operation is exact in float,
  * double and int alike and can be compared with plain integer arithmetic. */
+#define IN_SCALAR_T AT       /* the layer's coordinate scalar is the matrix scalar */
+#define B_IN_SCALAR_T AT
 #include "../stubs/types.h"
 #define N1 (DIMS_IN + 1)
 typedef struct { AT m_elems[DIMS_IN][N1]; } MAT_N_N1;   /* matrix<N, N+1, T> / affine<N, T> */
@@ -120,8 +122,6 @@ unsigned verif_ghost_i, verif_ghost_j;   /* ghost row / column */
 
 /* the affine layer's lookup: the backend is queried exactly once at A x + t */
 typedef struct { MAT_N_N1 m_transform; } AFFINE_SELF_T;
-#define IN_SCALAR_T AT
-#define B_IN_SCALAR_T AT
 #include "layer_common.h"
 #define CTERM(k, self, c, i) ((self)->m_transform.m_elems[i][k] * (c).m_data[k])
 #define CSUM1(self, c, i) ((AT)0 + CTERM(0, self, c, i))
